@@ -5,6 +5,7 @@ import (
 	"sync"
 	"sync/atomic"
 
+	"github.com/aperturerobotics/util/verifhook"
 	"github.com/sirupsen/logrus"
 )
 
@@ -34,7 +35,9 @@ func (k *KeyedRef[K, V]) Release() {
 	if k.rel.Swap(true) {
 		return
 	}
+	verifhook.Point("keyedrc.lock", k.rc)
 	k.rc.mtx.Lock()
+	verifhook.Enter(k.rc)
 	refs := k.rc.refs[k.key]
 	for i := 0; i < len(refs); i++ {
 		if refs[i] == k {
@@ -51,6 +54,7 @@ func (k *KeyedRef[K, V]) Release() {
 			break
 		}
 	}
+	verifhook.Leave(k.rc)
 	k.rc.mtx.Unlock()
 }
 
@@ -148,8 +152,11 @@ func (k *KeyedRefCount[K, V]) RestartAllRoutines(conds ...func(K, V) bool) (rest
 //
 // Returns if the key existed.
 func (k *KeyedRefCount[K, V]) RemoveKey(key K) bool {
+	verifhook.Point("keyedrc.lock", k)
 	k.mtx.Lock()
+	verifhook.Enter(k)
 	defer k.mtx.Unlock()
+	defer verifhook.Leave(k)
 
 	// clear all refs to the key
 	for _, ref := range k.refs[key] {
@@ -165,12 +172,15 @@ func (k *KeyedRefCount[K, V]) RemoveKey(key K) bool {
 // AddKeyRef adds a reference to the given key.
 // Returns if the key already existed or not.
 func (k *KeyedRefCount[K, V]) AddKeyRef(key K) (ref *KeyedRef[K, V], data V, existed bool) {
+	verifhook.Point("keyedrc.lock", k)
 	k.mtx.Lock()
+	verifhook.Enter(k)
 	refs := k.refs[key]
 	nref := &KeyedRef[K, V]{rc: k, key: key}
 	data, existed = k.keyed.SetKey(key, true)
 	refs = append(refs, nref)
 	k.refs[key] = refs
+	verifhook.Leave(k)
 	k.mtx.Unlock()
 	return nref, data, existed
 }
